@@ -240,7 +240,6 @@ func c37FailBeforeWrite(c *engine.Ctx, p *engine.Prog, f *engine.Fn, mutates fun
 	const T = "tm2/pkg/bft/types."
 	const rule = "fail-before-write"
 	g := f.Graph()
-	info := f.Info()
 	type msite struct {
 		s    *engine.Site
 		name string
@@ -267,28 +266,28 @@ func c37FailBeforeWrite(c *engine.Ctx, p *engine.Prog, f *engine.Fn, mutates fun
 			ms = append(ms, msite{s, "direct write"})
 		}
 	}
-	c.Floor(rule, len(ms), 5)
-	// guards
+	c.Floor(rule, len(ms), 3)
+	// guards: the verifiers may be called from f or from a private helper of f
 	type guard struct {
 		name string
-		s    *engine.Site
+		d    engine.DeepSite
 	}
 	var guards []guard
-	var deletes, numNew types.Object
 	for _, gname := range []string{"processChanges", "verifyRemovals", "verifyUpdates"} {
-		ss := f.CallsTo(T + gname)
-		if len(ss) != 1 {
-			c.Undecided(rule, f.Name+" guard "+gname, "expected exactly one call")
+		ds := f.DeepCallsTo(2, T+gname)
+		if len(ds) != 1 {
+			c.Undecided(rule, f.Name+" guard "+gname, "expected exactly one (deep) call")
 			continue
 		}
-		guards = append(guards, guard{gname, ss[0]})
-		objs := niAssignedFromCall(f, ss[0])
-		if gname == "processChanges" && len(objs) == 3 {
-			deletes = objs[1]
+		guards = append(guards, guard{gname, ds[0]})
+	}
+	// objects bound to the verifiers' results in the function that calls them
+	boundIn := func(fn *engine.Fn, name string, idx int) types.Object {
+		s, objs := niBoundCall(fn, T+name)
+		if s == nil || idx >= len(objs) {
+			return nil
 		}
-		if gname == "verifyUpdates" && len(objs) == 3 {
-			numNew = objs[1]
-		}
+		return objs[idx]
 	}
 	rets := niReturns(f)
 	for _, m := range ms {
@@ -301,53 +300,48 @@ func c37FailBeforeWrite(c *engine.Ctx, p *engine.Prog, f *engine.Fn, mutates fun
 		}
 		c.Check(rule, f.Name+" no error return after "+m.name, m.s.Pos(), bad == "", bad)
 		for _, gd := range guards {
-			r := g.CheckedGuard(gd.s, m.s)
-			ok, why := r.OK, r.Why
-			if r.OK {
-				// the condition must be exactly `err != nil` (target on false) or `err == nil` (target on true)
-				be, isB := ast.Unparen(r.Cond).(*ast.BinaryExpr)
-				switch {
-				case !isB || !isNil(be.Y):
-					ok, why = false, "guard result is tested by `"+engine.ExprString(r.Cond)+"`, not a plain nil test"
-				case be.Op == token.NEQ && r.OnTrue, be.Op == token.EQL && !r.OnTrue:
-					ok, why = false, "mutation is reached on the failing branch"
-				case be.Op != token.NEQ && be.Op != token.EQL:
-					ok, why = false, "unrecognised test"
-				default:
-					why = "dominated by checked " + gd.name
-				}
+			ok, why := niDeepChecked(f, gd.d, m.s)
+			if ok {
+				why = "dominated by checked " + gd.name
 			}
 			c.Check(rule, f.Name+" "+m.name+" after checked "+gd.name, m.s.Pos(), ok, why)
 		}
-		// empty-result test
+		// empty-result test: a condition `numNew == 0 && len(vals.Validators) == len(deletes)` is
+		// known false at the mutation (tested in f, or in a helper whose nil result gates the mutation)
 		ok, why := false, "no `numNew == 0 && len(vals.Validators) == len(deletes)` test with error return gates the mutation"
-		for _, gt := range g.Gates(m.s) {
-			if gt.OnTrue {
+		for _, cf := range niFactsDeep(f, m.s, 2) {
+			if cf.Holds {
 				continue
 			}
-			cj := engine.Conjuncts(gt.Cond, token.LAND)
+			cj := engine.Conjuncts(cf.Expr, token.LAND)
 			if len(cj) != 2 {
 				continue
 			}
+			finfo := cf.Info()
+			numNew, deletes := boundIn(cf.Fn, "verifyUpdates", 1), boundIn(cf.Fn, "processChanges", 1)
 			var okNew, okLen bool
 			for _, a := range cj {
 				be, isB := ast.Unparen(a).(*ast.BinaryExpr)
 				if !isB {
 					continue
 				}
-				if be.Op == token.EQL && numNew != nil && engine.ObjOf(info, be.X) == numNew && niIsZero(info, be.Y) {
+				x0, y0, op0 := be.X, be.Y, be.Op
+				if niIsZero(finfo, x0) {
+					x0, y0, op0 = y0, x0, engine.Flip(op0)
+				}
+				if op0 == token.EQL && numNew != nil && engine.ObjOf(finfo, x0) == numNew && niIsZero(finfo, y0) {
 					okNew = true
 				}
 				x, y, op := be.X, be.Y, be.Op
-				if niIsLenOfField(info, y, fValidators) {
+				if niIsLenOfField(finfo, y, fValidators) {
 					x, y, op = y, x, engine.Flip(op)
 				}
-				if niIsLenOfField(info, x, fValidators) && niIsLenOfObj(info, y, deletes) && (op == token.EQL || op == token.LEQ) {
+				if niIsLenOfField(finfo, x, fValidators) && niIsLenOfObj(finfo, y, deletes) && (op == token.EQL || op == token.LEQ) {
 					okLen = true
 				}
 			}
 			if okNew && okLen {
-				ok, why = true, "mutation on the false branch of `"+engine.ExprString(gt.Cond)+"`"
+				ok, why = true, "mutation on the false side of `"+engine.ExprString(cf.Expr)+"`"
 			}
 		}
 		c.Check(rule, f.Name+" "+m.name+" after empty-result test", m.s.Pos(), ok, why)
@@ -363,42 +357,69 @@ func c37RescaleAfterUpdate(c *engine.Ctx, p *engine.Prog, f *engine.Fn) {
 	const VS = "tm2/pkg/bft/types.(*ValidatorSet)."
 	const rule = "rescale-center"
 	g := f.Graph()
-	one := func(name string) *engine.Site {
-		ss := f.CallsTo(VS + name)
-		if len(ss) != 1 {
-			c.Undecided(rule, f.Name+" "+name, "expected exactly one call")
-			return nil
+	// the steps may sit in f or in private helpers called from f
+	// a recomputation reached through the lazy getter TotalVotingPower() is
+	// conditional (only when the cache is 0) and does not count as the forced one
+	forced := func(d engine.DeepSite) bool {
+		for _, h := range d.Chain {
+			if h.Name == VS+"TotalVotingPower" {
+				return false
+			}
 		}
-		return ss[0]
+		return true
 	}
-	au, ar, ut, rs, sh := one("applyUpdates"), one("applyRemovals"), one("updateTotalVotingPower"), one("RescalePriorities"), one("shiftByAvgProposerPriority")
-	if au == nil || ar == nil || ut == nil || rs == nil || sh == nil {
+	deep := func(name string) []engine.DeepSite {
+		var ds []engine.DeepSite
+		for _, d := range f.DeepCallsTo(2, VS+name) {
+			if forced(d) {
+				ds = append(ds, d)
+			}
+		}
+		if len(ds) == 0 {
+			c.Undecided(rule, f.Name+" "+name, "no (deep) call found")
+		}
+		return ds
+	}
+	au, ar, ut, rs, sh := deep("applyUpdates"), deep("applyRemovals"), deep("updateTotalVotingPower"), deep("RescalePriorities"), deep("shiftByAvgProposerPriority")
+	if len(au) == 0 || len(ar) == 0 || len(ut) == 0 || len(rs) == 0 || len(sh) == 0 {
 		return
 	}
-	chain := []struct {
-		a, b   *engine.Site
-		na, nb string
-	}{{au, ut, "applyUpdates", "updateTotalVotingPower"}, {ar, ut, "applyRemovals", "updateTotalVotingPower"}, {ut, rs, "updateTotalVotingPower", "RescalePriorities"}, {rs, sh, "RescalePriorities", "shiftByAvgProposerPriority"}}
-	for _, x := range chain {
-		ok := g.Dominates(x.a, x.b) && !g.ReachableAfter(x.b, x.a)
-		c.Check(rule, f.Name+" "+x.na+" before "+x.nb, x.b.Pos(), ok, "order of the closing steps of an accepted update")
+	for _, x := range [][2]string{{"applyUpdates", "updateTotalVotingPower"}, {"applyRemovals", "updateTotalVotingPower"}, {"updateTotalVotingPower", "RescalePriorities"}, {"RescalePriorities", "shiftByAvgProposerPriority"}} {
+		ok, _ := niDeepBeforeF(f, 2, []string{VS + x[0]}, []string{VS + x[1]}, forced)
+		c.Check(rule, f.Name+" "+x[0]+" before "+x[1], f.Pos(), ok, "order of the closing steps of an accepted update")
 	}
-	// every success return reachable after applyUpdates is dominated by shift
+	// every success return reachable after the apply steps is dominated by the centering
 	nret := 0
 	for _, r := range niReturns(f) {
-		if !g.ReachableAfter(au, r) && !g.ReachableAfter(ar, r) {
+		after := false
+		for _, a := range append(append([]engine.DeepSite{}, au...), ar...) {
+			if g.ReachableAfter(a.Outer, r) {
+				after = true
+			}
+		}
+		if !after {
 			continue
 		}
 		nret++
-		c.Check(rule, f.Name+" return after apply is centered", r.Pos(), g.Dominates(sh, r), "a return reachable after the apply steps must be dominated by shiftByAvgProposerPriority")
+		dom := false
+		for _, s := range sh {
+			if g.Dominates(s.Outer, r) {
+				dom = true
+			}
+		}
+		c.Check(rule, f.Name+" return after apply is centered", r.Pos(), dom, "a return reachable after the apply steps must be dominated by shiftByAvgProposerPriority")
 	}
 	c.Floor(rule, nret, 1)
-	c37RescaleArg(c, p, f, rs)
+	for _, d := range rs {
+		c37RescaleArg(c, p, f, d)
+	}
 }
 
 // c37RescaleArg: the window passed to RescalePriorities is PriorityWindowSizeFactor * TotalVotingPower().
-func c37RescaleArg(c *engine.Ctx, p *engine.Prog, f *engine.Fn, rs *engine.Site) {
+func c37RescaleArg(c *engine.Ctx, p *engine.Prog, root *engine.Fn, d engine.DeepSite) {
 	const T = "tm2/pkg/bft/types."
+	rs := d.Inner
+	f := rs.Fn // the function that actually contains the call (root or a helper)
 	info := f.Info()
 	factor := p.Object(T + "PriorityWindowSizeFactor")
 	if factor == nil {
@@ -426,7 +447,7 @@ func c37RescaleArg(c *engine.Ctx, p *engine.Prog, f *engine.Fn, rs *engine.Site)
 		}
 		ok = (niIsObj(info, be.X, factor) && isTot(be.Y)) || (niIsObj(info, be.Y, factor) && isTot(be.X))
 	}
-	c.Check("rescale-center", f.Name+" window = PriorityWindowSizeFactor*TotalVotingPower()", rs.Pos(), ok, "argument of RescalePriorities")
+	c.Check("rescale-center", root.Name+" window = PriorityWindowSizeFactor*TotalVotingPower()", rs.Pos(), ok, "argument of RescalePriorities")
 }
 
 func c37IncrementOuter(c *engine.Ctx, p *engine.Prog, f *engine.Fn, fProposer *types.Var) {
@@ -435,11 +456,17 @@ func c37IncrementOuter(c *engine.Ctx, p *engine.Prog, f *engine.Fn, fProposer *t
 	g := f.Graph()
 	info := f.Info()
 	incs := f.CallsTo(VS + "incrementProposerPriority")
-	rss := f.CallsTo(VS + "RescalePriorities")
-	shs := f.CallsTo(VS + "shiftByAvgProposerPriority")
+	rss := f.DeepCallsTo(2, VS+"RescalePriorities")
+	shs := f.DeepCallsTo(2, VS+"shiftByAvgProposerPriority")
 	c.Floor(rule+" (IncrementProposerPriority)", len(incs), 1)
 	for _, inc := range incs {
-		ok := len(rss) == 1 && len(shs) == 1 && g.Dominates(rss[0], shs[0]) && g.Dominates(shs[0], inc) && !g.ReachableAfter(inc, rss[0]) && !g.ReachableAfter(inc, shs[0])
+		ok1, _ := niDeepBefore(f, 2, []string{VS + "RescalePriorities"}, []string{VS + "shiftByAvgProposerPriority"})
+		ok := ok1 && len(rss) > 0 && len(shs) > 0
+		for _, s := range append(append([]engine.DeepSite{}, rss...), shs...) {
+			if !g.Dominates(s.Outer, inc) || g.ReachableAfter(inc, s.Outer) {
+				ok = false
+			}
+		}
 		c.Check(rule, f.Name+" rescale and center before the increments", inc.Pos(), ok, "RescalePriorities then shiftByAvgProposerPriority must dominate the increment loop and not run inside it")
 		// Proposer = result of the last increment
 		objs := niAssignedFromCall(f, inc)
@@ -458,8 +485,8 @@ func c37IncrementOuter(c *engine.Ctx, p *engine.Prog, f *engine.Fn, fProposer *t
 		}
 		c.Check("increment-step", f.Name+" Proposer = last selected validator", inc.Pos(), okp, "vals.Proposer must be assigned the value returned by incrementProposerPriority")
 	}
-	if len(rss) == 1 {
-		c37RescaleArg(c, p, f, rss[0])
+	for _, d := range rss {
+		c37RescaleArg(c, p, f, d)
 	}
 }
 
